@@ -1,6 +1,7 @@
 import Gonuts.Gen.Facts
 import Gonuts.Spec.NutWire
 import Gonuts.Lemmas.Wire
+import Gonuts.Lemmas.WireWitness
 /-!
   # C20 — the HTTP/JSON surface is a faithful, spec-shaped transport of the mint's decisions; NUT-19 cache
 
@@ -22,21 +23,9 @@ import Gonuts.Lemmas.Wire
                                (the key is the concatenation without separators).
 -/
 namespace Gonuts.Props.C20
-open Gonuts.Model.Mint Gonuts.Model.Wire Gonuts.Spec
+open Gonuts.Model.Mint Gonuts.Model.Wire Gonuts.Model.Wire.Witness Gonuts.Spec
 
 /-! ## 1. State enums -/
-
-def mqName : MQState → String
-  | .unpaid => "Unpaid" | .paid => "Paid" | .issued => "Issued" | .pending => "Pending"
-def lqName : LQState → String
-  | .unpaid => "Unpaid" | .pending => "Pending" | .paid => "Paid"
-def psName : PState → String
-  | .unspent => "Unspent" | .pending => "Pending" | .spent => "Spent"
-
-def tbl (t : List (String × String)) (k : String) : Option String :=
-  match t.find? (·.1 == k) with
-  | some kv => some kv.2
-  | none => none
 
 /-- `State.String()` of the source (extracted switch tables) yields the model's — i.e. the NUTs' — strings, and
     `StringToState` maps each back to the same constant: nut04 (mint quotes). -/
@@ -196,21 +185,6 @@ theorem refused_shape_constant_handlers (e : E) :
     (outputs above the quote amount), and a storage fault at the fourth storage call (GetMintQuote, UpdateMintQuoteState PAID, UpdateMintQuoteState
     PENDING, then) — the "restore previous state" write.  The quote is left PENDING (the stranding recorded under C07). -/
 section RawWitness
-def sPaid : WSess :=
-  let s0 : WSess := { mint := initSess 0 false {} }
-  let s1 := (applyOp s0.mint (.mintQuote 4 true .none false)).1
-  let s2 := (applyOp s1 (.settle 0)).1
-  { s0 with mint := (applyOp s2 (.armFault 3)).1 }
-
-def rMintOver : Request := {
-  method := "POST"
-  segs := ["v1", "mint", "bolt11"]
-  url := "/v1/mint/bolt11"
-  ctype := "application/json"
-  body := "{…}"
-  bodyLen := 5
-  dec := Decode.ok (Parsed.mint 0 [{ amount := 8, ks := .known 0, b := .pt 1, witness := 0 }] .none) }
-
 example : (handle sPaid rMintOver).2 = ⟨400, "{}"⟩ := by decide
 example : ((handle sPaid rMintOver).1.mint.w.db.mintQ.map (·.state)) = [.pending] := by decide
 end RawWitness
@@ -313,8 +287,6 @@ example :
         dec := Decode.ok (Parsed.swap [p, p] [] none) }).2 = ⟨400, (errTree eDupProofs).render⟩ := by decide
 
 /-! ## 5. Internal failures -/
-
-def stdBody : String := "{\"detail\":\"mint is currently unable to process request\",\"code\":10000}"
 
 /-- DB-coded (1) and LN-coded (2) errors of the operation are answered with one constant body, whatever the internal
     message `name` is — by these handlers. -/
@@ -513,24 +485,6 @@ theorem cache_exact_full_false : ¬ cache_exact_full := by
 /-! End-to-end witness of that ambiguity: the second request — another URL, the body `null` (a swap without inputs,
     which on its own is refused) — is answered 200 with the signatures of the first. -/
 section AmbiguityWitness
-def pr7 : Proof := { amount := 1, ks := .known 0, secret := 7, long := false, c := .sig 0 1 7, cEnc := 0, witness := 0, dleq := 0, lock := .plain }
-def out3 : BMsg := { amount := 1, ks := .known 0, b := .pt 3, witness := 0 }
-def sFresh : WSess := { mint := initSess 0 false {} }
-def rFirst : Request := {
-  method := "POST"
-  segs := ["v1", "swap"]
-  url := "/v1/swap?x"
-  body := "{A}null"
-  bodyLen := 7
-  dec := Decode.ok (Parsed.swap [pr7] [out3] none) }
-def rSecond : Request := {
-  method := "POST"
-  segs := ["v1", "swap"]
-  url := "/v1/swap?x{A}"
-  body := "null"
-  bodyLen := 4
-  dec := Decode.ok (Parsed.swap [] [] none) }
-
 example : (handle sFresh rFirst).2.status = 200 := by decide
 example : (handle sFresh rSecond).2.status = 400 := by decide
 example : (handle (handle sFresh rFirst).1 rSecond).2 = (handle sFresh rFirst).2 := by decide
@@ -606,16 +560,6 @@ example : Cache.lookup (Cache.set (Cache.set (Cache.set [] "a" "1" 0 1) "b" "2" 
 
 /-! Witnesses for the clock: replay inside the TTL, the one extra answer of an expired entry, execution afterwards. -/
 section ClockWitness
-def rSwap : Request := {
-  method := "POST"
-  segs := ["v1", "swap"]
-  url := "/v1/swap"
-  ctype := "application/json"
-  body := "{swap}"
-  bodyLen := 6
-  dec := Decode.ok (Parsed.swap [pr7] [out3] none) }
-def s1 : WSess := (handle sFresh rSwap).1
-
 example : Reaches rSwap .swapRequest (.swap [pr7] [out3] none) (.swap [pr7] [out3] none) :=
   ⟨by decide, by decide, ⟨[], rfl, by decide⟩, by decide, rfl, rfl⟩
 example : ReqWF rSwap := ⟨by decide, by decide⟩
